@@ -1,12 +1,28 @@
 """C20 check configuration (see checks/props.py for the meaning of the keys)."""
 
 
+def _skip_rules(c, i, n):
+    """skip n matchrule rules `<mode> <ci> <inv> <nVals> <value>…` starting at c[i]; returns (index, rules)"""
+    rules = []
+    for _ in range(n):
+        nv = int(c[i + 3])
+        rules.append((c[i], c[i + 1], c[i + 2], c[i + 4:i + 4 + nv]))
+        i += 4 + nv
+    return i, rules
+
+
 def _spam_ops(c):
     """(header dict, list of op token lists) of a c20.spam case"""
     i = 5
     ne = int(c[i]); i += 1 + ne
     nr = int(c[i]); rthr = c[i + 1:i + 1 + nr]; i += 1 + nr
     i += 1  # defs
+    multi = False
+    for _ in range(ne):  # exception block
+        k = int(c[i + 1])
+        i, rules = _skip_rules(c, i + 2, k)
+        multi = multi or any(len({len(v) for v in r[3]}) > 1 for r in rules)
+    nl = int(c[i]); i += 1 + 2 * nl
     n = int(c[i]); i += 1
     ops = []
     while i < len(c) and len(ops) < n:
@@ -14,7 +30,11 @@ def _spam_ops(c):
             ops.append(["m"]); i += 1
         else:
             ops.append(c[i:i + 9]); i += 9
-    return {"thr": c[1], "unban": c[2], "interval": c[3], "rulesNil": c[4], "nexc": ne, "rthr": rthr}, ops
+    return {"thr": c[1], "unban": c[2], "interval": c[3], "rulesNil": c[4], "nexc": ne, "rthr": rthr, "multi": multi}, ops
+
+
+def _hexlen(t):
+    return 0 if t == "-" else len(t) // 2
 
 
 def _spam_answers(i):
@@ -39,6 +59,10 @@ def c20_nontrivial(c, i):
         return "1" in ans and rounds > 0
     if c[0] == "c20.in":
         return "d" in i and "r" in i
+    if c[0] == "c20.mr":
+        # some rule has values of different lengths
+        _, rules = _skip_rules(c, 3, int(c[2]))
+        return any(len({_hexlen(v) for v in r[3]}) > 1 for r in rules)
     return False
 
 
@@ -53,6 +77,7 @@ def c20_classify(c, i):
             out.append("spam.rules=" + ("nil" if h["rulesNil"] == "1" else str(len(h["rthr"]))))
             out.append("spam.exceptions=" + str(h["nexc"]))
             if h["interval"] != "1000000000": out.append("spam.interval-odd")
+            if h["multi"]: out.append("spam.exception-values-of-different-lengths")
             nm = sum(1 for o in ops if o[0] == "m")
             ne = len(ops) - nm
             out.append("spam.events=" + ("0" if ne == 0 else "1-8" if ne <= 8 else "9-40" if ne <= 40 else "41+"))
@@ -75,6 +100,19 @@ def c20_classify(c, i):
             nd = sum(1 for t in i if t == "d"); nr = sum(1 for t in i if t == "r")
             out.append("in.delivered=" + ("0" if nd == 0 else "1-9" if nd < 10 else "10+"))
             out.append("in.refused=" + ("0" if nr == 0 else "1-9" if nr < 10 else "10+"))
+        elif c[0] == "c20.mr":
+            k, rules = _skip_rules(c, 3, int(c[2]))
+            dl = _hexlen(c[k])
+            out.append("mr.rules=" + str(len(rules)))
+            out.append("mr.answer=" + (i[0] if i else "?"))
+            for (mode, ci, inv, vals) in rules:
+                ls = [_hexlen(v) for v in vals]
+                out.append("mr.mode=" + {"0": "prefix", "1": "contains", "2": "suffix"}.get(mode, "?"))
+                out.append("mr.values=" + str(len(vals)) + ("-difflen" if len(set(ls)) > 1 else ""))
+                if ci == "1": out.append("mr.case_insensitive")
+                if inv == "1": out.append("mr.invert")
+                out.append("mr.data-vs-sizes=" + ("<min" if dl < min(ls) else "=min" if dl == min(ls) and dl < max(ls)
+                                                  else "between" if dl < max(ls) else "=max" if dl == max(ls) else ">max"))
         if i and i[0].startswith("panic"): out.append("panic")
     except Exception:
         out.append("unclassified")
@@ -96,17 +134,18 @@ def sig_mixed(c, i, m, rec, p):
 
 CFG = {
     "manifest": {
-        "text": "Proof: Lean theorems (Props/C20.lean) about executable models of Pipeline.checkInputBytes / Pipeline.In (json and raw decoders) and of antispam.IsSpam / Maintenance: a record is refused only for the listed reasons, a cut record is exactly its first max bytes (+ newline), records within the limit reach the decoder unchanged, a disabled antispam / a matching exception never drops, a true IsSpam answer needs threshold counted events since the last maintenance round or a ban standing when that round ran (ban_needs_threshold; strict reading proved when the round left no residue, ban_needs_threshold_strict_partial), a silent source is at counter 0 after unbanIterations+1 rounds - for every interleaving of events and maintenance rounds and arbitrary event times. The literal ban clause of the property (not banned after the previous round => at least threshold events since it) is false of the code in two recorded ways (counter residue after unban; per-source counter under per-rule thresholds): full statements + proved counterexamples in Props, witnesses in corpus/C20, known_findings.jsonl. The property oracle evaluates the literal clause on the implementation's answers and counters; every miss that is not of the two recorded kinds is a VIOLATION. The models are tied to the real Pipeline.In (harness input plugin, devnull output) and the real Antispammer on every run.",
-        "note": "Trusted: Lean kernel + the three standard axioms; fdmodel compilation; harness; oracle parameters (insane-json decoding, matchrule.RuleSet.Match, doif.Checker.Check, PassEvent) are evaluated by the harness and universally quantified in the theorems; hook pipeline/antispam/export_verif_c20.go (VerifCounters: all source counters before/after a round). Not modelled: CRI and the other decoders, concurrent IsSpam callers (the atomics are modelled sequentially), metrics, event pool.",
+        "text": "Proof: Lean theorems (Props/C20.lean) about executable models of Pipeline.checkInputBytes / Pipeline.In (json and raw decoders) and of antispam.IsSpam / Maintenance: a record is refused only for the listed reasons, a cut record is exactly its first max bytes (+ newline), records within the limit reach the decoder unchanged, a disabled antispam / a matching exception never drops (with 'matches' proved to be the literal reading of cfg/matchrule: some value is a prefix / suffix / substring of the data; matchrule_literal, ruleset_literal, exception_never_drops_literal), a true IsSpam answer needs threshold counted events since the last maintenance round or a ban standing when that round ran (ban_needs_threshold; strict reading proved when the round left no residue, ban_needs_threshold_strict_partial), a silent source is at counter 0 after unbanIterations+1 rounds - for every interleaving of events and maintenance rounds and arbitrary event times. The literal ban clause of the property (not banned after the previous round => at least threshold events since it) is false of the code in two recorded ways (counter residue after unban; per-source counter under per-rule thresholds): full statements + proved counterexamples in Props, witnesses in corpus/C20, known_findings.jsonl. The property oracle evaluates the literal clause on the implementation's answers and counters; every miss that is not of the two recorded kinds is a VIOLATION. The models are tied to the real Pipeline.In (harness input plugin, devnull output) and the real Antispammer on every run.",
+        "note": "Trusted: Lean kernel + the three standard axioms; fdmodel compilation; harness; oracle parameters (insane-json decoding, bytes.ToLower, doif.Checker.Check, PassEvent; matchrule.RuleSet.Match only for the exceptions of c20.in) are evaluated by the harness and universally quantified in the theorems; hook pipeline/antispam/export_verif_c20.go (VerifCounters: all source counters before/after a round). Not modelled: CRI and the other decoders, concurrent IsSpam callers (the atomics are modelled sequentially), metrics, event pool.",
         "technique": "Lean 4 proof (case analysis of In; inductive invariant over event/maintenance op lists) + differential correspondence against Pipeline.In and antispam.Antispammer",
     },
     "props_modules": ["FileD.Props.C20"],
     "nontrivial": c20_nontrivial,
     "classify": c20_classify,
-    "rule": "c20.spam: every sequence over {event inside the interval, event a whole interval later, isNewSource event, maintenance} up to length 7 (quick) / 8 (thorough) for one source under small (threshold, unbanIterations) pairs, then random multi-source sequences (thresholds 1..6, rule lists with thresholds -1/0/1..6, exceptions, PRNG arrival times incl. out-of-order and int64 extremes, maintenance at PRNG positions, int32-extreme thresholds); c20.in: every record over {a,b,\\n} up to length 5 (quick) / 7 (thorough) under limits 0..3 with and without cut-off through the raw decoder, then random JSON/raw records sized around the limit through pipelines with antispam thresholds 0..4, exceptions, source_name_meta_field, stream offsets and PassEvent answers; distinct = distinct case line; non-trivial = (spam) some IsSpam call answered true and a maintenance round ran, (in) the case has both a delivered and a refused record",
-    "corr_name": "Admission.inSeq = Pipeline.In per record (refused | delivered event tree); Antispam.isSpam/maintenance/dumpAll/dump = Antispammer.IsSpam answers, all source counters before/after every Maintenance, final Dump()",
+    "rule": "c20.mr: every matchrule rule with one or two values over {a,b} up to length 3 (three values sampled in thorough) x every mode x every data up to length 4, then random rule sets of 1..3 rules (and/or) with 1..4 values of different lengths that are prefixes / suffixes / substrings / extensions of the data and of each other, case-insensitive on ASCII, invert, data lengths below min / between min and max / above max value size; c20.spam: every sequence over {event inside the interval, event a whole interval later, isNewSource event, maintenance} up to length 7 (quick) / 8 (thorough) for one source under small (threshold, unbanIterations) pairs, then random multi-source sequences (thresholds 1..6, rule lists with thresholds -1/0/1..6, exceptions, PRNG arrival times incl. out-of-order and int64 extremes, maintenance at PRNG positions, int32-extreme thresholds); c20.in: every record over {a,b,\\n} up to length 5 (quick) / 7 (thorough) under limits 0..3 with and without cut-off through the raw decoder, then random JSON/raw records sized around the limit through pipelines with antispam thresholds 0..4, exceptions, source_name_meta_field, stream offsets and PassEvent answers; distinct = distinct case line; non-trivial = (mr) some rule has values of different lengths, (spam) some IsSpam call answered true and a maintenance round ran, (in) the case has both a delivered and a refused record",
+    "corr_name": "MatchRule.rsMatch = matchrule.RuleSet.Match; Admission.inSeq = Pipeline.In per record (refused | delivered event tree); Antispam.isSpam/maintenance/dumpAll/dump = Antispammer.IsSpam answers, all source counters before/after every Maintenance, final Dump()",
     "trusted_base": [
-        "oracle parameters evaluated by the harness on the concrete input and shipped in the case line: JSON decoding (insane-json via decoder.New(JSON)), matchrule.RuleSet.Match of every exception on event bytes and on the source name, doif.Checker.Check of every rule, PassEvent; exec re-evaluates them and rejects a case line whose oracle values differ",
+        "oracle parameters evaluated by the harness on the concrete input and shipped in the case line: JSON decoding (insane-json via decoder.New(JSON)), bytes.ToLower of what case-insensitive matchrule rules lower, doif.Checker.Check of every rule, PassEvent, and (c20.in only) matchrule.RuleSet.Match of the exceptions; exec re-evaluates them and rejects a case line whose oracle values differ. In c20.spam and c20.mr the exception / rule-set results are computed by the model of cfg/matchrule (M) and by the literal reading (P), not taken from the library",
+        "bytes.Contains / bytes.Equal have their mathematical meaning in the model",
         "antispam counters before and after every Maintenance are read through the verif accessor Antispammer.VerifCounters (pipeline/antispam/export_verif_c20.go); the final state through the public Dump() (sources whose counter >= the default threshold)",
         "modelled, not verified: insane-json AddFieldNoAlloc/MutateTo* (first field of that name is overwritten, else appended; no-op on non-objects)",
     ],
